@@ -492,11 +492,25 @@ def mon_C06_timing(case, obs):
     the callback is told that limit"""
     out = []
     params = job_params(case, obs)
+    # jobs about which this monitor expects nothing: acknowledged more than once (no real worker
+    # does that: a task is received by one worker), or already visited by a scan at or after their
+    # deadline while their worker was not in the pool (nobody to signal; the scan remembers them)
+    excused = set()
+    acks = {}
     for n, (e, o) in enumerate(zip(case['events'], obs)):
+        if e[0] == 'ack':
+            acks[e[1]] = acks.get(e[1], 0) + 1
+            if acks[e[1]] > 1:
+                excused.add(e[1])
         if not n:
             continue
         prev = obs[n - 1]['jobs']
         live = {w[0] for w in obs[n - 1]['workers']}
+        if e[0] in ('scan', 'scan_step') and not o['exc']:
+            for k, j in _apply_jobs(obs[n - 1]):
+                if k < len(params) and params[k][0] and j['extra'][0] and o['now'] >= j['extra'][0] + params[k][0] \
+                        and not (j['wpids'] and j['wpids'][0] in live):
+                    excused.add(k)
         for k, j in _apply_jobs(o):
             if k >= len(params) or k >= len(prev):
                 continue
@@ -514,7 +528,7 @@ def mon_C06_timing(case, obs):
                                 % (k, o['now'], t, soft, n, e)))
             if e[0] == 'scan' and not o['exc'] and o['ret'] != 'NoScanner' and soft and t and not prev[k]['ready'] \
                     and prev[k]['incache'] and o['now'] >= t + soft and not (hard and o['now'] >= t + hard) \
-                    and prev[k]['wpids'] and prev[k]['wpids'][0] in live \
+                    and prev[k]['wpids'] and prev[k]['wpids'][0] in live and k not in excused \
                     and not any(x[0] for x in j['cb'][3]):
                 out.append(('C06:soft-limit-not-signalled',
                             'job %d accepted %s with effective soft limit %s got no soft signal from the scan at %s (event %d)'
@@ -1285,6 +1299,14 @@ def real_scenarios(res, pid, specs):
         def alarm(sig, what):
             res.alarms.append(dict(signature=sig, what=what, replay=dict(kind='real-pool-scenario', spec=sp, observed=r)))
         if r.get('hang'):
+            stacks = r.get('stacks') or ''
+            if k == 'terminate' and sp.get('state') == 'lock_lost' and '_stop_task_handler' in stacks and 'tell_others' in stacks:
+                # the PARENT's own sentinel put found the result queue's write lock lost (the worker
+                # that took it at SIGTERM is gone): a different, recorded defect -- the worker side
+                # of the lost lock (D25) shows as a hang in result_handler.stop() instead
+                alarm('C08:terminate-hangs-parent-put-on-lost-write-lock',
+                      'scenario %s: terminate() is blocked joining the task handler, which is blocked in tell_others -> outqueue.put(None) on the lost write lock' % json.dumps(sp))
+                continue
             alarm('%s:real-pool-%s-hangs' % (pid, k), 'scenario %s did not finish within its watchdog' % json.dumps(sp))
             continue
         if r.get('error'):
